@@ -1,4 +1,4 @@
-import SctpVerif.Proofs.PendQInv
+import SctpVerif.Proofs.PendQMsg
 /-!
 # C17 — scheduler half: fragment order, contiguity without interleaving, round robin, WFQ, accounting
 
@@ -52,6 +52,23 @@ theorem C17_mode_switch_only_empty (q : PQ α) (b : Bool) (hne : q.nChunks ≠ 0
   · simp [h1]
   · simp [h1, hne]
 
+/-- **Without interleaving a message's fragments stay adjacent.** Take any scheduler factory and any
+list of push / peek / pop operations on a fresh queue (no `setInterleaving`: the message policy).
+Assume the push list keeps fragments together — every non-final fragment (`e = false`) is immediately
+followed, in the push list, by a chunk of the same ordering class, which is what `sendPayloadData`
+guarantees by pushing all fragments of a message under one lock hold. Then whenever a non-final
+fragment `x` is popped, the very next chunk popped is the chunk that was pushed right after `x`,
+i.e. the next fragment of the same message: pushes of other messages, on other streams or of the
+other class, never get in between. Since TSNs are assigned in pop order, the fragments of one
+message occupy consecutive TSNs. -/
+theorem C17_contiguous (f : Factory) (ops : List Op) (hops : ∀ o ∈ ops, o.basic = true)
+    (hkeep : KeepsTogether (pushesOf ((PQ.new f : PQ α).run ops).2)) (x y : Chunk)
+    (hadj : AdjIn x y (popsOf ((PQ.new f : PQ α).run ops).2)) (hx : x.e = false) :
+    AdjIn x y (pushesOf ((PQ.new f : PQ α).run ops).2) := by
+  obtain ⟨m', _, hc⟩ := cinv_run (q := (PQ.new f : PQ α)) (m := {}) rfl MsgPol.cinv_empty ops hops
+  simp only [List.nil_append] at hc
+  exact adj_of_filter x.unordered _ hkeep (hc.good x y hadj hx) hx rfl
+
 -- the theorems above are not vacuous: a run that fragments, switches mode and interleaves
 private def exOps : List Op :=
   [.push ⟨0, 1, false, true, false, 5⟩, .push ⟨1, 1, false, false, true, 3⟩, .pop, .setil true, .pop, .setil true,
@@ -59,6 +76,16 @@ private def exOps : List Op :=
 example : popsOf ((PQ.new .rr : PQ Rat).run exOps).2 =
       [⟨0, 1, false, true, false, 5⟩, ⟨1, 1, false, false, true, 3⟩, ⟨2, 7, true, true, true, 4⟩] ∧
     ((PQ.new .rr : PQ Rat).run exOps).1.nChunks = 0 ∧ ((PQ.new .rr : PQ Rat).run exOps).1.interleaving = true := by
+  decide
+
+
+-- `C17_contiguous` is not vacuous: two fragmented messages (ordered on stream 1, unordered on stream 2)
+-- pushed one after the other, pops in between: the unordered one overtakes, neither is split
+private def exMsgOps : List Op :=
+  [.push ⟨0, 1, false, true, false, 5⟩, .push ⟨1, 1, false, false, true, 3⟩, .pop,
+   .push ⟨2, 2, true, true, false, 4⟩, .push ⟨3, 2, true, false, true, 4⟩, .pop, .pop, .pop]
+example : popsOf ((PQ.new .none : PQ Rat).run exMsgOps).2 =
+    [⟨0, 1, false, true, false, 5⟩, ⟨1, 1, false, false, true, 3⟩, ⟨2, 2, true, true, false, 4⟩, ⟨3, 2, true, false, true, 4⟩] := by
   decide
 
 end C17
